@@ -16,6 +16,15 @@ META = {
 }
 
 
+def pre_build(ctx):
+    # undo / redo are part of what this property quantifies over: re-translate action_history.py
+    import translate_history
+
+    ok, msg = translate_history.regenerate()
+    if not ok:
+        raise RuntimeError("translator refused action_history.py: %s" % msg)
+
+
 def run(ctx):
     return G.run_property(ctx, "C01", n_quick=400, n_thorough=6000, seg_p=0.5)
 
